@@ -8,6 +8,7 @@ import (
 	"sort"
 
 	_ "github.com/formancehq/ledger/verifh/pnum"
+	_ "github.com/formancehq/ledger/verifh/props"
 	"github.com/formancehq/ledger/verifh/reg"
 )
 
